@@ -7,6 +7,8 @@ _ENV = {"ASAN_OPTIONS": "abort_on_error=1:detect_leaks=0:detect_stack_use_after_
 
 
 def _leg(name, quick, thorough, **kw):
+    # --watchdog: a `tree` over a cyclic mount (or any other command) that never returns is a hang datum; the runner
+    # re-runs the single case alone (case_timeout) before it reports hang/<mode>
     d = dict(name=name, harness=_H, flavour="asan", mode=name, quick=quick, thorough=thorough,
              args=["--watchdog", "60"], case_timeout=120, env=_ENV)
     d.update(kw)
@@ -16,16 +18,84 @@ def _leg(name, quick, thorough, **kw):
 PROP = dict(
     harnesses={_H: dict(sources=["harness/c13_terminal.cpp"])},
     legs=[
-        _leg("editor", 3000, 200000),
+        _leg("editor", 40000, 1500000),
+        # 30 reference forms x 7 fill levels x {leading blanks} x {follow-up kind}: every combination once
         _leg("histref", 840, 840, scalable=False, exhaustive=True),
-        _leg("hostile", 1500, 100000),
-        _leg("telnet", 300, 20000),
-        _leg("tcprpc", 150, 10000),
+        _leg("hostile", 12000, 600000),
+        _leg("telnet", 3000, 200000),
+        _leg("tcprpc", 2000, 100000),
     ],
-    rule="TBD",
-    assumptions=[],
-    technique="TBD",
-    level_text="TBD",
-    level_note="TBD",
-    required_counters={"all": []},
+    rule=("editor: one case = one Terminal (real epoll loop, recording Connection, probe function nodes /p /q /d/r /d/e/s) driven by 40-220 keys, "
+          "generated online against the reference editor of harness/c13_ref.hpp: printable characters (all but '#'), Backspace 7f/08, Delete, Left, Right, Home, End, "
+          "Up, Down, Enter as CR LF / LF / CR NUL / trailing CR, Tab, F1-F12, Insert, PgUp/PgDn, Alt+x, Ctrl+Alt+x, trailing ESC; every key's bytes unsplit, 1..n keys per "
+          "onRecvString (per case: always 1, or flush probability 1/2, 1/5, 1/20). Text comes from command templates (probe calls with quoted / --k=\"v w\" arguments, "
+          "relative names, ls/cd/pwd/tree/help, history, !n !-n !! with n around the history size and far outside int, multi-segment lines with empty segments, "
+          "unbalanced quotes, exit/quit incl. twice in one line, junk, 40-160 argument lines) typed with 0/3/10/25 % interleaved editing keys, plus recall-and-run "
+          "sequences. After every delivery: one \"# \" send per Enter; the probe invocations observed must be an in-order match of the reference line's segments "
+          "(segments naming a probe by canonical absolute path before anything irregular MUST be invoked with exactly the reference tokens, other tokenizable segments MAY); "
+          "a sole history reference must re-run exactly the addressed entry or produce an \"Error\" send with no invocation; after a line whose storage the property leaves open "
+          "the shell's own `history` listing is read back and must be the old list or the old list plus that line / an older entry, capped at 20, and the model follows it; "
+          "after plain successful lines and after `history` the listing must equal the model; no listing may exceed 20 rows or contain the `history` command; exit must end "
+          "the session within two loop passes (Connection::endSession, onRecvString then false) and nothing else may. "
+          "histref: every combination of fill level {0,1,2,7,19,20,23 lines entered} x 30 reference forms (!!, !0, !1, !-1, !size-1, !size, !size+1, !-size, !-(size+1), "
+          "INT_MAX, INT_MIN, 2^31, -(2^31+1), 2^32, 10^12, 2^64, 10^26, empty, non-numeric, open forms) x leading blanks x follow-up (Up+Enter / !!). "
+          "hostile: random node tree (<= 6 dirs, <= 6 funcs, mounts incl. self / root / mutual cycles, names such as '..', 'a b', 'ls', 200 characters; nodes deleted while mounted; "
+          "umounts) mutated while 1-4 sessions (all four option combinations) receive arbitrary bytes, dictionary soup of cut escape prefixes / CR / NUL / 0xFF, command lines over "
+          "tree/ls/cd/help/pwd with generated paths, history references, 3000-character lines, `exit` repeated in one string; loop passes at random; sends to sessions torn down "
+          "and a wrong onRecvString/onRecvWindowSize liveness answer are violations; finally a fresh session must execute `/zz_probe 42 'x y'` exactly. "
+          "telnet / tcprpc: the same Terminal behind Telnetd / TcpRpc on a loopback TCP port, 1-3 client sockets written in random interleaving and segmentation: clean clients "
+          "(keys unsplit, telnet commands DO/DONT/WILL/WONT/NOP/GA/SB NAWS/SB TTYPE/IAC IAC cut anywhere) are checked for probe invocations (reply markers in the byte stream), "
+          "one prompt per Enter plus the greeting, one WONT per DONT, one NOP per NOP, Bye + EOF after exit; hostile clients send IAC soup, unterminated / nested / short SB blocks, "
+          "0xFF runs, 60 KB lines, repeated exit, then half-close / close / RST; finally a fresh client's command must be executed. "
+          "Any crash, abort, uncaught exception (also caught in-process and keyed by type), ASan/UBSan or pool-poison report is a violation; a case that does not finish is a hang datum. "
+          "Non-trivial: editor = at least one mid-line edit, one required probe invocation checked and one executed recall or checked history reference; "
+          "hostile = more than 10 sends recorded; tcp = at least two probe invocations. distinct = distinct hashes of the delivered byte strings."),
+    assumptions=[
+        "key encodings are never split across onRecvString calls in the equivalence legs (the scanner restarts per call); a bare CR counts as Enter only as the last byte of a call, "
+        "so the TCP legs use CR LF / CR NUL / LF only",
+        "reference editor semantics for history browsing: Up shows the next older stored line, Down the next newer, Down past the newest gives an empty line, the line being edited "
+        "is not kept; the property names the keys but not these details, they mirror the shell's visible behaviour and no proposed fix touches them",
+        "tokenisation is compared only for the shapes pinned by the repository's own SplitCmdline unit tests; a closing quote directly followed by a non-blank is left open "
+        "(such deliveries are not matched against probe invocations)",
+        "which lines are stored in the history is pinned only for plain successful lines (stored) and the sole command `history` (not stored); for everything else the model "
+        "follows the shell's own listing and only checks that the change is one of the allowed ones",
+        "history references with a sign '+', leading zeros, '-0', embedded blanks or digits followed by other characters are left open (either an error or a re-run is accepted)",
+        "what a multi-segment line does after an empty segment, a parse failure, `history`, an exit or a failed history reference is left open: later probe segments MAY run",
+        "SIGPIPE is ignored by the harness, as cpp-tbox's own main module catches it; a server write to a connection the client has reset is otherwise a process-level signal matter",
+        "client-side TCP_NODELAY and TCP_QUICKACK keep loopback delivery synchronous with the loop passes; if a reply is still missing the harness keeps turning the loop for up to "
+        "2 s of real time before it judges the content (counter tcp_settle_waits_10ms, normally absent)",
+        "deleteSession from the transport while an exit is still queued for that session is not generated (neither TCP front end can produce it); the proposed fix covers it anyway",
+        "the libFuzzer leg sketched in DESIGN is not built (the fuzz flavour of the library does not compile with clang-14, see lib/props_c19.py); the hostile and TCP legs are "
+        "sized up instead",
+    ],
+    technique=("lock-step reference editor / command classifier against the real Terminal over generated keystroke scripts, enumerated history-reference sub-space, "
+               "hostile byte streams through onRecvString and through Telnetd / TcpRpc on loopback TCP sockets, all under ASan+UBSan with a poisoned session pool"),
+    level_text=("Tens of thousands of keystroke scripts are executed by the real shell and by an independent reference editor; the argument vectors reaching probe nodes, the prompt "
+                "sends, the shell's own history listing and session teardown are compared after every delivery. Every history-reference form is tried at every history fill level. "
+                "Hostile bytes, cyclic / deleted node trees and misbehaving TCP clients run under AddressSanitizer/UBSan with pooled sessions poisoned; a crash of the child is a datum. "
+                "Held on the scripts and streams explored, not a proof."),
+    level_note="trusts the reference editor / tokenizer in harness/c13_ref.hpp, gcc ASan/UBSan and the kernel's loopback TCP; equivalence is claimed only for unsplit key encodings",
+    required_counters={"all": [
+        # key scanner + editing handlers
+        "key_insert_mid_line", "key_backspace_mid_line", "key_delete_mid_line", "key_backspace_at_col0", "key_left", "key_left_at_col0", "key_right", "key_right_at_end",
+        "key_home", "key_end", "key_up_recall", "key_up_at_oldest", "key_down_recall", "key_down_to_empty", "key_noop_fnkey", "key_noop_tab", "key_noop_alt",
+        "key_noop_ctrlalt", "key_noop_esc_trailing", "enter_crlf", "enter_lf", "enter_crnul", "enter_cr_trailing", "deliveries_with_several_enters",
+        "lines_executed_after_recall", "lines_multi_segment", "probe_calls_required_and_checked", "prompt_checks",
+        # history cap / history itself not stored
+        "history_store_pinned", "history_cmd_not_stored_pinned", "history_eviction_at_cap", "history_listing_full_20", "history_listing_equals_reference",
+        "history_open_line_stored", "history_open_line_not_stored",
+        # history re-run parses and bounds-checks the index
+        "histref_entry_absolute", "histref_entry_negative", "histref_entry_bangbang", "histref_entry_with_full_history", "histref_error_with_empty_history",
+        "histref_error____with_empty_history", "histref_error__n_out_of_range", "histref_error___n_out_of_range", "histref_error_non_numeric_argument",
+        "histref_error_empty_argument", "histref_cases",
+        # session teardown deferred to the next loop pass
+        "sessions_ended_by_exit", "hostile_segments_with_repeated_exit", "hostile_sessions_ended_by_exit", "hostile_calls_on_dead_session", "tcp_exit_then_eof_seen",
+        "tcp_repeated_exit_in_one_write",
+        # node trees
+        "tree_cycle_marker_seen", "tree_deleted_marker_seen", "deleted_node_message_seen", "tree_listings_seen", "tree_cyclic_mounts_direct", "hostile_liveness_probe_ok",
+        # telnet IAC framing waits for complete commands
+        "tcp_iac_cut_across_segments", "tcp_wont_replies_checked", "tcp_nop_replies_checked", "tcp_sb_truncated", "tcp_sb_naws_short_first_data", "tcp_sb_nested",
+        "tcp_ff_runs", "tcp_truncated_iac_at_close", "tcp_rst_close", "tcp_half_close", "tcp_abrupt_close", "tcp_probe_calls_required_and_checked", "tcp_prompt_checks",
+        "tcp_liveness_probe_ok",
+    ]},
 )
